@@ -36,11 +36,11 @@ type HashCase struct {
 	Prefix bool   `json:"prefix"` // external sender spelled with 0x
 }
 
-var hashTypes = []string{"sendtohub", "transfer", "batch", "call", "signerset", "boundary"}
+var hashTypes = []string{"sendtohub", "transfer", "batch", "call", "signerset", "boundary", "boundary2"}
 
 func genHashCase(t *rapid.T) interface{} {
 	c := genHashCaseRaw(t)
-	if c.Type != "boundary" {
+	if c.Type != "boundary" && c.Type != "boundary2" {
 		chain := []string{"ethereum", "bsc", "minter"}[c.Chain%3]
 		if muts := mutatorsFor(c.Type, chain, nil); len(muts) > 0 {
 			c.Name = muts[c.Field%len(muts)].name
@@ -447,6 +447,21 @@ func runHashCase(ci interface{}, rec *pbt.Rec) *pbt.Failure {
 			e1, e2 = mk("1", shifted), mk("10", rest)
 			field = "TransferToChainEvent.boundary(ExternalCoinId|Amount)"
 		}
+	} else if typ == "boundary2" {
+		// two numeric fields next to each other: bytes moved from the end of the amount to the front of the fee
+		// (amount 0x..0001, fee 0x02 versus amount 0x.., fee 0x0102); the amounts differ, so do the effects
+		tail := big.NewInt(int64(1 + c.Seed%250))
+		head := big.NewInt(int64(1_000_000 + c.Seed))
+		fee := big.NewInt(int64(2 + c.Field%200))
+		a1 := new(big.Int).SetBytes(append(append([]byte{}, head.Bytes()...), tail.Bytes()...))
+		f2 := new(big.Int).SetBytes(append(append([]byte{}, tail.Bytes()...), fee.Bytes()...))
+		mk := func(a, f *big.Int) mtypes.ExternalEvent {
+			return &mtypes.TransferToChainEvent{EventNonce: 1, ExternalCoinId: c14Tokens[0].ExtId, Amount: sdk.NewIntFromBigInt(a), Fee: sdk.NewIntFromBigInt(f), Sender: sim.ExtUser(1).Hex(),
+				ReceiverChainId: "hub", ExternalReceiver: bridge.HubHex(sim.UserAddr(1)), ExternalHeight: 500, TxHash: "0x01"}
+		}
+		chain = "ethereum"
+		e1, e2 = mk(a1, fee), mk(head, f2)
+		field = "TransferToChainEvent.boundary(Amount|Fee)"
 	} else {
 		fx := newFixture()
 		if typ == "batch" && fx.batch[chain] == nil {
